@@ -554,7 +554,7 @@ func init() {
 	core.Register(&core.Check{
 		ID:          "C05",
 		Level:       "model_checking",
-		Rule:        "differential exploration of the real evaluator under two configurations (State.NoReg false/true), each with the function cache on and off: exhaustive program families (functions x argument kinds x parameter uses; nested counted loops x variable names x forms x exit kinds x position x scope) run on fresh states, and REPL histories (every sequence of <=3 loop inputs, repetitions up to 20 crossing the 8 register slots) on one persistent state followed by probes. Oracle: identical printed output, shown result, error texts, panic flag for every input. Non-trivial = every case (each contains at least one integer parameter or counted loop); distinct by program text. Also: the declaring loop forms (for i := n) with the global and the parameter observed afterwards; parameters / loop variables named like extension namespaces, their members, info and self; the one-parameter function programs and single loops again at debug log level.",
+		Rule:        "differential exploration of the real evaluator under two configurations (State.NoReg false/true), each with the function cache on and off: exhaustive program families (functions x argument kinds x parameter uses; nested counted loops x variable names x forms x exit kinds x position x scope) run on fresh states, and REPL histories (every sequence of <=3 loop inputs, repetitions up to 20 crossing the 8 register slots) on one persistent state followed by probes. Oracle: identical printed output, shown result, error texts, panic flag for every input. Non-trivial = every case (each contains at least one integer parameter or counted loop); distinct by program text. Also: the declaring loop forms (for i := n) with the global and the parameter observed afterwards; parameters / loop variables named like extension namespaces, their members, info and self; the one-parameter function programs and single loops again at debug log level. Round 7: the same loop node entered again in one frame with another number of registers in use (list of counts and lists, a loop spliced twice by a macro); functions left by return from inside a loop while a closure / the rest of the body / eval() still reads the frame; unquote of parameters and loop variables.",
 		Assume:      []string{"type/info introspection excluded as the property states", "error texts compared verbatim (EvalOne's error strings)"},
 		QuickCap:    100 * time.Second,
 		ThoroughCap: 20 * time.Minute,
